@@ -24,7 +24,15 @@ import (
 )
 
 const VerifRoot = "/verif"
-const RepoRoot = "/repo"
+
+// RepoRoot is /repo. VERIF_REPO may point the builds at another checkout of the repository (used only
+// to evaluate seeded changes in scratch worktrees without touching /repo; registered commands never set it).
+var RepoRoot = func() string {
+	if v := os.Getenv("VERIF_REPO"); v != "" {
+		return strings.TrimRight(v, "/")
+	}
+	return "/repo"
+}()
 
 var goEnv = []string{"GOFLAGS=-mod=mod", "GOPROXY=off", "GOSUMDB=off", "GOTOOLCHAIN=local", "GOWORK=off", "CGO_ENABLED=0"}
 
@@ -209,9 +217,26 @@ func buildFailed(what, out string) {
 }
 
 // BuildWorker rebuilds vworker from /repo's current working tree with the verif tag.
+// modfileArgs returns -modfile=<alt> when the repository is not /repo: a copy of the harness go.mod
+// whose replace directives point at RepoRoot.
+func (r *Run) modfileArgs() []string {
+	if RepoRoot == "/repo" {
+		return nil
+	}
+	b, err := os.ReadFile(filepath.Join(VerifRoot, "harness", "go.mod"))
+	if err != nil {
+		fatal("read go.mod: %v", err)
+	}
+	alt := filepath.Join(r.WorkDir, "alt.mod")
+	os.WriteFile(alt, []byte(strings.ReplaceAll(string(b), "/repo/", RepoRoot+"/")), 0o644)
+	return []string{"-modfile=" + alt}
+}
+
 func (r *Run) BuildWorker() {
 	binp := filepath.Join(r.WorkDir, "vworker")
-	out, err := runCmd(filepath.Join(VerifRoot, "harness"), goEnv, "go", "build", "-tags", "verif", "-o", binp, "./cmd/vworker")
+	args := append([]string{"build"}, r.modfileArgs()...)
+	args = append(args, "-tags", "verif", "-o", binp, "./cmd/vworker")
+	out, err := runCmd(filepath.Join(VerifRoot, "harness"), goEnv, "go", args...)
 	if err != nil {
 		buildFailed("vworker", out)
 	}
@@ -222,7 +247,9 @@ func (r *Run) BuildRaceWorker() {
 	binp := filepath.Join(r.WorkDir, "vworker-race")
 	env := append([]string{}, goEnv...)
 	env = append(env, "CGO_ENABLED=1")
-	out, err := runCmd(filepath.Join(VerifRoot, "harness"), env, "go", "build", "-race", "-tags", "verif", "-o", binp, "./cmd/vworker")
+	args := append([]string{"build"}, r.modfileArgs()...)
+	args = append(args, "-race", "-tags", "verif", "-o", binp, "./cmd/vworker")
+	out, err := runCmd(filepath.Join(VerifRoot, "harness"), env, "go", args...)
 	if err != nil {
 		buildFailed("vworker -race", out)
 	}
@@ -473,7 +500,7 @@ func (r *Run) runBatch(k int, lo, hi int, opts ExecOpts, gen func(i int) *Item) 
 			bin = r.RaceBin
 		}
 		cmd := exec.Command(bin, casePath, outPath)
-		cmd.Env = append(os.Environ(), opts.Env...)
+		cmd.Env = append(append(os.Environ(), opts.Env...), "VW_REPO_PREFIX="+RepoRoot+"/")
 		ef, _ := os.Create(errPath)
 		sf, _ := os.Create(stdoutPath)
 		cmd.Stderr = ef
@@ -660,9 +687,14 @@ func (r *Run) Finish() {
 	if ev.Assumptions == nil {
 		ev.Assumptions = []string{}
 	}
-	os.MkdirAll(filepath.Join(VerifRoot, "evidence"), 0o755)
+	evDir := filepath.Join(VerifRoot, "evidence")
+	if RepoRoot != "/repo" {
+		// evaluating a scratch checkout: never overwrite the evidence that describes /repo
+		evDir = filepath.Join(VerifRoot, "bin", "evidence-scratch")
+	}
+	os.MkdirAll(evDir, 0o755)
 	b, _ := json.MarshalIndent(ev, "", " ")
-	if err := os.WriteFile(filepath.Join(VerifRoot, "evidence", r.Prop+".json"), append(b, '\n'), 0o644); err != nil {
+	if err := os.WriteFile(filepath.Join(evDir, r.Prop+".json"), append(b, '\n'), 0o644); err != nil {
 		fatal("write evidence: %v", err)
 	}
 
